@@ -374,10 +374,8 @@ func checkC08Wiring(p *Prog, r *Report, ru *Rule, get *ssa.Function) {
 	step := func(caller, callee *ssa.Function, calleeParam string, want func(v ssa.Value) (bool, string)) {
 		c := fmt.Sprintf("%s→%s(%s)", fnName(caller), fnName(callee), calleeParam)
 		idx := -1
-		for k, pa := range callee.Params {
-			if pa.Name() == calleeParam {
-				idx = k
-			}
+		if pa := paramNamed(callee, calleeParam); nil != pa {
+			idx = paramIndex(callee, pa)
 		}
 		if idx < 0 {
 			ru.Unproven(c, callee.Pos(), "%s has no parameter %s", fnName(callee), calleeParam)
@@ -404,7 +402,7 @@ func checkC08Wiring(p *Prog, r *Report, ru *Rule, get *ssa.Function) {
 	}
 	isParam := func(fn *ssa.Function, name string) func(v ssa.Value) (bool, string) {
 		return func(v ssa.Value) (bool, string) {
-			if pa, ok := resolveCell(v).(*ssa.Parameter); ok && pa.Parent() == fn && pa.Name() == name {
+			if pa, ok := resolveCell(v).(*ssa.Parameter); ok && pa.Parent() == fn && pa == paramNamed(fn, name) {
 				return true, "passes its own " + name + " unchanged"
 			}
 			return false, "the cache file name handed on is " + rootsString(valueRoots(v, nil)) + ", not the " + name + " it was given"
